@@ -3,6 +3,7 @@ from . import shared_py as P
 from . import shared_cxx as X
 from . import shared_gen as G
 from . import c07
+from . import shared_model as M
 
 
 def run(ctx, L, tier):
@@ -24,6 +25,9 @@ def run(ctx, L, tier):
                     ['generate_struct_get_byte_size', 'generate_struct_encode', 'generate_struct_decode'])
     G.union_templates(ctx, L)
     c07.generated_decode(ctx, L)
+    M.size_formulas(ctx, L)
+    M.dynamic_predicates(ctx, L)
+    M.stiffness(ctx, L)
     # the Python side of the same wire steps
     P.f1_struct_walkers(ctx, L, sides=('encode', 'decode'))
     P.f1_union_encode(ctx, L)
